@@ -291,11 +291,11 @@ func refparseAxis(n string) bool {
 }
 
 var (
-	reQNameWS   = regexp.MustCompile(`([\w.#*-])[ \t\r\n]*:[ \t\r\n]*([\w#*])`)
-	reNumWS     = regexp.MustCompile(`(\d)[ \t\r\n]*\.[ \t\r\n]*(\d)`)
-	reNumWS2    = regexp.MustCompile(`(^|[^\w.)\]])\.[ \t\r\n]+(\d)`)
+	reQNameWS     = regexp.MustCompile(`([\w.#*-])[ \t\r\n]*:[ \t\r\n]*([\w#*])`)
+	reNumWS       = regexp.MustCompile(`(\d)[ \t\r\n]*\.[ \t\r\n]*(\d)`)
+	reNumWS2      = regexp.MustCompile(`(^|[^\w.)\]])\.[ \t\r\n]+(\d)`)
 	reAxisMangled = regexp.MustCompile(`\b(?:preceding|following)[._0-9]sibling\b|\b(?:ancestor|descendant)(?:[._0-9]or[._0-9-]self|-or[._0-9]self)\b`)
-	reSlashStar = regexp.MustCompile(`(^|[(\[,=<>+|-]|and|or|div|mod)[ \t\r\n]*/[ \t\r\n]*\*`)
+	reSlashStar   = regexp.MustCompile(`(^|[(\[,=<>+|-]|and|or|div|mod)[ \t\r\n]*/[ \t\r\n]*\*`)
 )
 
 // c08Rewrites are string-level rewrites for strings the reference rejects but the library accepts.
@@ -383,7 +383,7 @@ func c08Judge(r *evid.Run, idx int, class, rendering, s string, genAST xast.Expr
 				continue
 			}
 			mv, me := c08Model(ast2)
-			if c08Agree(lib, mv, me, false) == "" || evalFails(lib) {
+			if c08Agree(lib, mv, me, false) == "" || evalFails(lib) || hasFnStepWithArgs(ast2) || hasNamespaceAxisNameTest(ast2) {
 				if known([]string{rw.id}, what) {
 					sig("known")
 					return
@@ -393,7 +393,7 @@ func c08Judge(r *evid.Run, idx int, class, rendering, s string, genAST xast.Expr
 		// and/or/div/mod read as operators where the grammar makes them names
 		if ast2, perr2 := refparse.ParseQ(s, refparse.Quirks{KeywordOperators: true}); perr2 == nil {
 			mv, me := c08Model(ast2)
-			if c08Agree(lib, mv, me, false) == "" && known([]string{"grammar-reserved-names"}, what) {
+			if (c08Agree(lib, mv, me, false) == "" || hasFnStepWithArgs(ast2) || hasNamespaceAxisNameTest(ast2)) && known([]string{"grammar-reserved-names"}, what) {
 				sig("known")
 				return
 			}
@@ -407,7 +407,7 @@ func c08Judge(r *evid.Run, idx int, class, rendering, s string, genAST xast.Expr
 			lib2 := c08Lib(s2)
 			if lib2.buildErr == nil {
 				mv, me := c08Model(norm)
-				if (hasFnStepWithArgs(norm) || c08Agree(lib2, mv, me, false) == "") && known(ids, what) {
+				if (hasFnStepWithArgs(norm) || hasNamespaceAxisNameTest(norm) || c08Agree(lib2, mv, me, false) == "") && known(ids, what) {
 					sig("known")
 					return
 				}
